@@ -224,14 +224,17 @@ class ThetaForecaster(ExponentialSmoothing):
         return errors
 
     def update(self, y, X=None, update_params=True):
+        self.check_is_fitted()
+        if self.deseasonalize and len(y) > 0:
+            # the remembered series is the deseasonalised one (see `fit`), so new
+            # observations are deseasonalised before they are added to it
+            y = self.deseasonalizer_.transform(y)
         super(ThetaForecaster, self).update(
             y, X, update_params=False
         )  # use custom update_params routine
         if update_params:
-            if self.deseasonalize:
-                y = self.deseasonalizer_.transform(self._y)  # use updated y
             self.initial_level_ = self._fitted_forecaster.params["smoothing_level"]
-            self.trend_ = self._compute_trend(y)
+            self.trend_ = self._compute_trend(self._y)  # use updated y
         return self
 
 
